@@ -416,4 +416,128 @@ theorem transpose_transpose {n : ℕ} {A : List (List ℝ)} (h : TriPf.Square n 
 theorem matmul_transpose_eq {n : ℕ} {A : List (List ℝ)} (h : TriPf.Square n A) : matmul A (transpose A) = matMulT A := by
   simp only [matmul, transpose_transpose h, matMulT]
 
+
+/-! ### explicit constructor values, accessors on them, scalars -/
+
+theorem locscale_init_eq (k : BaseKind) (loc scale : NArr ℝ) {s : List Nat} (h : bcast2 loc.shape scale.shape = some s) :
+    (Option.bind (Fw.broadcastShapes (shapeOf loc) (shapeOf scale)) fun t =>
+      Option.bind (GenFam.Affine.init loc scale) fun b =>
+        some ({ base_dist := StdBase.mk k t, bijection := b } : Fw.Transformed StdBase (AffineObj ℝ)))
+      = some { base_dist := ⟨k, s⟩,
+               bijection := { shape := s, loc := broadcastTo loc s, scale := Gen.Wr.BijectionReparam.init (broadcastTo scale s) softPlus } } := by
+  simp only [Fw.broadcastShapes, shapeOf, h, affine_init_eq loc scale h, Option.bind_some]
+
+/-- the accessors of a location-scale family on the generated constructor's object: `loc` is the broadcast `loc`, `scale` the
+broadcast `scale` (every entry positive), the stored raw leaf is `softplus⁻¹ scale` entry by entry -/
+theorem locscale_accessor (k : BaseKind) (loc scale : NArr ℝ) {s : List Nat} (h : bcast2 loc.shape scale.shape = some s)
+    (hpos : ∀ σ ∈ (broadcastTo scale s).data, 0 < σ) :
+    ∃ d, (Option.bind (Fw.broadcastShapes (shapeOf loc) (shapeOf scale)) fun t =>
+      Option.bind (GenFam.Affine.init loc scale) fun b =>
+        some ({ base_dist := StdBase.mk k t, bijection := b } : Fw.Transformed StdBase (AffineObj ℝ))) = some d ∧
+      d.base_dist = ⟨k, s⟩ ∧ d.bijection.shape = s ∧ GenFam.locScaleLoc d = broadcastTo loc s ∧
+      GenFam.locScaleScale d = broadcastTo scale s ∧
+      Reparam.raw d.bijection.scale = (broadcastTo scale s).data.map Ctors.softplusRaw :=
+  ⟨_, locscale_init_eq k loc scale h, rfl, rfl, rfl, reparam_unwrap_roundtrip _ hpos, reparam_raw _⟩
+
+theorem broadcastTo_scalar (v : ℝ) : (broadcastTo (NArr.scalar v) []).data = [v] := rfl
+
+theorem scalar_logProb (c : Comp ℝ) (x : ℝ) : (lifted [c]).logProb [x] () = (oneDim c).logProb x () := by
+  rw [FamiliesPf.lifted_logProb]; simp
+
+theorem zipWith_add_sub : ∀ (A B : List ℝ), A.length = B.length → List.zipWith (fun a b => a + (b - a)) A B = B
+  | [], [], _ => rfl
+  | [], _ :: _, h => by simp at h
+  | _ :: _, [], h => by simp at h
+  | a :: A, b :: B, h => by
+    simp only [List.zipWith_cons_cons, List.cons.injEq]
+    exact ⟨by ring, zipWith_add_sub A B (by simpa using h)⟩
+
+theorem pos_of_zip {A B : List ℝ} (hv : ∀ p ∈ List.zip A B, ¬ p.1 ≤ p.2) : ∀ σ ∈ List.zipWith (· - ·) A B, 0 < σ := by
+  induction A generalizing B with
+  | nil => simp
+  | cons a A ih =>
+    cases B with
+    | nil => simp
+    | cons b B =>
+      intro σ hσ
+      simp only [List.zipWith_cons_cons, List.mem_cons] at hσ
+      rcases hσ with rfl | hσ
+      · have := hv (a, b) (by simp); simp only [not_le] at this; linarith
+      · exact ih (fun p hp => hv p (by simp [hp])) σ hσ
+
+/-- `Uniform`: the generated constructor's object and its accessors -/
+theorem uniform_accessor (minval maxval : NArr ℝ) {s : List Nat} (h : bcast2 minval.shape maxval.shape = some s)
+    (hv : ∀ p ∈ List.zip (broadcastTo maxval s).data (broadcastTo minval s).data, ¬ p.1 ≤ p.2) :
+    ∃ d, GenFam.Uniform.init minval maxval = some d ∧ d.base_dist = ⟨.uniform, s⟩ ∧
+      GenFam.uniformMinval d = broadcastTo minval s ∧ GenFam.uniformMaxval d = some (broadcastTo maxval s) := by
+  have h' : bcast2 maxval.shape minval.shape = some s := by rwa [bcast2_comm]
+  let W : NArr ℝ := ⟨s, List.zipWith (· - ·) (broadcastTo maxval s).data (broadcastTo minval s).data⟩
+  have hW : W.WF := by simp [W, NArr.WF, broadcastTo_length]
+  have hle : Fw.le maxval minval
+      = some ⟨s, List.zipWith (fun x y => decide (x ≤ y)) (broadcastTo maxval s).data (broadcastTo minval s).data⟩ := by
+    simp [Fw.le, zipB, broadcastArrays2, h', broadcastTo]
+  have hsub : Fw.sub maxval minval = some W := by
+    simp [Fw.sub, zipB, broadcastArrays2, h', broadcastTo, W]
+  have haff := affine_init_eq minval W (s := s) (bcast2_absorb h)
+  have hself : broadcastTo W s = W := broadcastTo_self W hW
+  refine ⟨{ base_dist := ⟨.uniform, s⟩,
+            bijection := { shape := s, loc := broadcastTo minval s, scale := Gen.Wr.BijectionReparam.init W softPlus } }, ?_, rfl, rfl, ?_⟩
+  · simp only [GenFam.Uniform.init, Fw.broadcastShapes, shapeOf, h, hle, errorIf, any_le_false _ _ hv, Option.bind_some, hsub, haff, hself,
+      Bool.false_eq_true, if_false]
+  · have hWpos : ∀ σ ∈ W.data, 0 < σ := pos_of_zip hv
+    have hb1 : broadcastTo (broadcastTo minval s) s = broadcastTo minval s := broadcastTo_self _ (broadcastTo_wf minval s)
+    simp only [GenFam.uniformMaxval, reparam_unwrap_roundtrip W hWpos, Fw.add, zipB, broadcastArrays2]
+    have hs1 : (broadcastTo minval s).shape = s := rfl
+    have hs2 : W.shape = s := rfl
+    rw [hs1, hs2, bcast2_self, Option.map_some, Option.map_some, hb1, hself]
+    simp only [W, zipWith_zipWith_swap, Option.some.injEq]
+    rw [zipWith_add_sub _ _ (by simp [broadcastTo_length])]
+    rfl
+
+/-- `StudentT`: the generated constructor's object and its `df` accessor -/
+theorem studentT_accessor (df loc scale : NArr ℝ) {s : List Nat}
+    (h : Vec.broadcastShapes [df.shape, loc.shape, scale.shape] = some s) (hpos : ∀ d ∈ (broadcastTo df s).data, 0 < d) :
+    ∃ d, GenFam.StudentT.init df loc scale = some d ∧ d.base_dist.shape = s ∧ GenFam.studentTDf d = broadcastTo df s ∧
+      GenFam.locScaleLoc d = broadcastTo loc s ∧ Reparam.raw d.base_dist.df = (broadcastTo df s).data.map Ctors.softplusRaw := by
+  have haff := affine_init_eq (broadcastTo loc s) (broadcastTo scale s) (s := s) (bcast2_self s)
+  have h1 : broadcastTo (broadcastTo loc s) s = broadcastTo loc s := broadcastTo_self _ (broadcastTo_wf loc s)
+  have h2 : broadcastTo (broadcastTo scale s) s = broadcastTo scale s := broadcastTo_self _ (broadcastTo_wf scale s)
+  refine ⟨{ base_dist := { shape := s, df := Gen.Wr.BijectionReparam.init (broadcastTo df s) softPlus },
+            bijection := { shape := s, loc := broadcastTo loc s, scale := Gen.Wr.BijectionReparam.init (broadcastTo scale s) softPlus } },
+    ?_, rfl, reparam_unwrap_roundtrip _ hpos, rfl, reparam_raw _⟩
+  simp only [GenFam.StudentT.init, broadcastArrays3, h, Option.map_some, Option.bind_some, student_init_eq _ hpos, haff, h1, h2]
+  rfl
+
+theorem recip_recip (rate : NArr ℝ) (hpos : ∀ r ∈ rate.data, 0 < r) : recip (recip rate) = rate := by
+  obtain ⟨sh, d⟩ := rate
+  simp only [recip, List.map_map, NArr.mk.injEq, true_and]
+  induction d with
+  | nil => rfl
+  | cons r d ih =>
+    simp only [List.map_cons, Function.comp, List.cons.injEq]
+    exact ⟨by have := hpos r (by simp); field_simp, ih (fun x hx => hpos x (by simp [hx]))⟩
+
+/-- `Exponential`: the `rate` accessor reproduces every positive rate array -/
+theorem exponential_accessor (rate : NArr ℝ) (hpos : ∀ r ∈ rate.data, 0 < r) :
+    GenFam.exponentialRate (GenFam.Exponential.init rate) = rate ∧ (GenFam.Exponential.init rate).base_dist = ⟨.exponential, rate.shape⟩ ∧
+      Reparam.raw (GenFam.Exponential.init rate).bijection.scale = rate.data.map (fun r => Ctors.softplusRaw (1 / r)) := by
+  have hp : ∀ σ ∈ (recip rate).data, 0 < σ := by
+    intro σ hσ
+    simp only [recip, List.mem_map] at hσ
+    obtain ⟨r, hr, rfl⟩ := hσ
+    exact one_div_pos.mpr (hpos r hr)
+  refine ⟨?_, rfl, ?_⟩
+  · simp only [GenFam.exponentialRate, GenFam.Exponential.init, GenFam.Scale.init, toArray, reparam_unwrap_roundtrip _ hp,
+      recip_recip rate hpos]
+  · simp only [GenFam.Exponential.init, GenFam.Scale.init, toArray, reparam_raw, recip, List.map_map]
+    rfl
+
+/-- what a generated `Affine.__init__` that does not raise returned -/
+theorem affine_init_inv {loc scale : NArr ℝ} {d : AffineObj ℝ} (h : GenFam.Affine.init loc scale = some d) :
+    ∃ s, bcast2 loc.shape scale.shape = some s ∧
+      d = { shape := s, loc := broadcastTo loc s, scale := Gen.Wr.BijectionReparam.init (broadcastTo scale s) softPlus } := by
+  cases hb : bcast2 loc.shape scale.shape with
+  | none => rw [affine_init_none loc scale hb] at h; cases h
+  | some s => rw [affine_init_eq loc scale hb] at h; exact ⟨s, rfl, (Option.some.inj h).symm⟩
+
 end FamGenPf
